@@ -30,6 +30,10 @@ fn main() {
         "C18" => props::c18::run(&mut ctx),
         "C19" => props::c19::run(&mut ctx),
         "C20" => props::c20::run(&mut ctx),
+        "C21" => props::c21::run_c21(&mut ctx),
+        "C22" => props::c21::run_c22(&mut ctx),
+        "C23" => props::c23::run(&mut ctx),
+        "C34" => props::c34::run(&mut ctx),
         other => {
             eprintln!("zb: unknown property {other}");
             std::process::exit(3);
